@@ -110,6 +110,7 @@ func (v *FnVC) encodeCall(ins ssa.Instruction, c *ssa.CallCommon, res ssa.Value)
 	if name != "" {
 		contract = v.W.ContractFor(name)
 	}
+	v.checkCallAsserts(ins, name, fn, contract, sig, argTerms)
 	results := make([]Term, sig.Results().Len())
 	if contract != nil {
 		v.applyContract(ins, contract, name, fn, closure, sig, argTerms, results)
@@ -247,6 +248,7 @@ func (v *FnVC) applyContract(ins ssa.Instruction, contract *FuncContract, name s
 	for k, t := range env.vars {
 		penv.vars[k] = t
 	}
+	penv.vars["$allocPre"] = intT(pre.alloc)
 	for k := range results {
 		results[k] = v.havocVal("ret_"+short, sig.Results().At(k).Type())
 		v.assumeFreshBound(results[k], post)
@@ -788,6 +790,20 @@ func (v *FnVC) encodeAppend(ins ssa.Instruction, c *ssa.CallCommon, res ssa.Valu
 	// new backing array content: prefix from s, suffix from t
 	oldArr := fmt.Sprintf("(select %s (sarr %s))", h, s.S)
 	var content string
+	// append(s, x) with a single variadic element and s not a re-slice: content is the old content with x stored at len(s)
+	if sl1, ok := c.Args[1].(*ssa.Slice); ok {
+		if al, ok := sl1.X.(*ssa.Alloc); ok && al.Comment == "varargs" {
+			if arr, ok := deref(al.Type()).Underlying().(*types.Array); ok && arr.Len() == 1 {
+				if _, resliced := c.Args[0].(*ssa.Slice); !resliced {
+					whole := v.load(st, v.locOf(al))
+					elem := v.arrSelect(whole.S, arr, "0")
+					v.heapSet(st, k, fmt.Sprintf("(store %s %s (store %s (slen %s) %s))", h, r, oldArr, s.S, elem))
+					v.setVal(res, fmt.Sprintf("(mkSlice %s 0 %s %s)", r, nlen, ncap))
+					return
+				}
+			}
+		}
+	}
 	// single-element fast path: t has known length 1 (varargs)
 	newArr := v.freshConst("apparr", fmt.Sprintf("(Array Int %s)", es))
 	tArr := fmt.Sprintf("(select %s (sarr %s))", h, t.S)
@@ -851,6 +867,7 @@ func (v *FnVC) atExit() {
 	env := v.baseEnv()
 	env.st = st
 	env.lookup = func(name string) (Term, bool) { return v.localAtExit(name, st) }
+	env.vars["$allocPre"] = intT(v.entry.alloc)
 	rn := resultNames(nil, sig)
 	for k := range results {
 		env.vars[rn[k]] = results[k]
@@ -1075,4 +1092,64 @@ func (v *FnVC) localAtExit(name string, st *State) (Term, bool) {
 		return v.load(st, v.locOf(best)), true
 	}
 	return v.val(best), true
+}
+
+// checkCallAsserts: assertions of the enclosing function's contract attached to calls of a named callee.
+func (v *FnVC) checkCallAsserts(ins ssa.Instruction, name string, fn *ssa.Function, contract *FuncContract, sig *types.Signature, args []Term) {
+	if v.C == nil || len(v.C.CallAsserts) == 0 || name == "" {
+		return
+	}
+	for _, ca := range v.C.CallAsserts {
+		cf := v.W.Files[v.C.Pkg]
+		if cf == nil {
+			continue
+		}
+		if v.W.canonName(ca.Callee, cf, v.Fn.Pkg.Pkg) != name {
+			continue
+		}
+		if ca.Ordinal >= 0 && v.callOrdinal(ins, name) != ca.Ordinal {
+			continue
+		}
+		env := v.baseEnv()
+		blk := v.curBlock
+		st := v.cur
+		env.lookup = func(n string) (Term, bool) { return v.localByNameAt(n, blk, ins, st) }
+		var names []string
+		if contract != nil {
+			names = v.paramNames(contract, fn, sig, len(args) > sig.Params().Len())
+		} else {
+			names = v.paramNames(&FuncContract{}, fn, sig, len(args) > sig.Params().Len())
+		}
+		for k, n := range names {
+			if k < len(args) {
+				env.vars["$"+n] = args[k]
+			}
+		}
+		f := v.evalBool(ca.C.E, env)
+		v.oblige("assert-call:"+shortCallee(name), f, fmt.Sprintf("at every call of %s: %s", shortCallee(name), ca.C.Text), ins.Pos())
+	}
+}
+
+// callOrdinal: index of the call instruction among the calls of the same callee in this function, in source order.
+func (v *FnVC) callOrdinal(ins ssa.Instruction, name string) int {
+	var poss []int
+	for _, b := range v.Fn.Blocks {
+		for _, i := range b.Instrs {
+			ci, ok := i.(ssa.CallInstruction)
+			if !ok {
+				continue
+			}
+			n, _ := v.calleeName(ci.Common())
+			if n == name {
+				poss = append(poss, int(i.Pos()))
+			}
+		}
+	}
+	sort.Ints(poss)
+	for k, p := range poss {
+		if p == int(ins.Pos()) {
+			return k
+		}
+	}
+	return -1
 }
